@@ -1,5 +1,7 @@
-// Verus unit U4: range-partition kernel of the lexer-ambiguity check, assembled mechanically by tools/unit.py:
-// `struct Test` + `impl Test` (lalrpop/src/lexer/nfa/mod.rs) and `add_range` (lalrpop/src/lexer/dfa/overlap.rs).
+// Verus unit U4: range partitioning of the lexer-ambiguity check, assembled mechanically by tools/unit.py:
+// `struct Test`, `impl Test`, `impl PartialOrd/Ord for Test` (lalrpop/src/lexer/nfa/mod.rs) and `remove_overlap`,
+// `add_range` (lalrpop/src/lexer/dfa/overlap.rs).
+#![feature(allocator_api)]
 #![allow(unused_imports, dead_code, unused_variables)]
 //@ source nfa lalrpop/src/lexer/nfa/mod.rs
 //@ source ov lalrpop/src/lexer/dfa/overlap.rs
@@ -34,6 +36,16 @@ pub assume_specification<'a, T, P: FnMut(&'a T) -> bool> [<std::slice::Iter<'a, 
 
 //@ item nfa struct Test pub_fields
 //@ item nfa impl Test
+//@ item nfa impl PartialOrd@Test
+//@ item nfa impl Ord@Test
+
+/// `#[derive(Clone)]` on `Test`, replaced by a trusted impl carrying the derive's contract (R7c)
+impl Clone for Test {
+    #[verifier::external_body]
+    fn clone(&self) -> (r: Test) ensures r == *self { Test { range: self.range.clone() } }
+}
+pub assume_specification<T: Clone> [<T as std::borrow::ToOwned>::to_owned] (t: &T) -> (r: T)
+    ensures call_ensures(T::clone, (t,), r);
 
 impl vstd::std_specs::cmp::PartialEqSpecImpl for Test {
     open spec fn obeys_eq_spec() -> bool { true }
@@ -89,6 +101,100 @@ pub open spec fn refines(v: Seq<Test>, t: Test) -> bool {
     forall|j: int| 0 <= j < v.len() ==> (!ne(#[trigger] v[j]) || sep(v[j], t) || sub(v[j], t))
 }
 
+// ------------------------------ assumed contracts of slice::sort and Vec::retain ------------------------------
+/// instantiation handle for the index-map quantifiers
+pub open spec fn at(i: int) -> bool { true }
+/// p is a permutation of 0..n with inverse q
+pub open spec fn is_perm(p: Seq<int>, q: Seq<int>, n: int) -> bool {
+    p.len() == n && q.len() == n
+    && (forall|i: int| #![trigger at(i)] 0 <= i < n ==> 0 <= p[i] < n && q[p[i]] == i)
+    && (forall|k: int| #![trigger at(k)] 0 <= k < n ==> 0 <= q[k] < n && p[q[k]] == k)
+}
+/// `sort` leaves a permutation of its input (its order is irrelevant to the partition property)
+pub assume_specification<T: Ord> [<[T]>::sort] (s: &mut [T])
+    ensures final(s)@.len() == old(s)@.len(),
+        exists|p: Seq<int>, q: Seq<int>| is_perm(p, q, old(s)@.len() as int) && forall|i: int| 0 <= i < old(s)@.len() ==> #[trigger] final(s)@[i] == old(s)@[p[i]];
+/// m is a strictly increasing selection of n_new indices out of 0..n_old
+pub open spec fn is_selection(m: Seq<int>, n_old: int, n_new: int) -> bool {
+    m.len() == n_new
+    && (forall|j: int| #![trigger at(j)] 0 <= j < n_new ==> 0 <= m[j] < n_old)
+    && (forall|j: int, k: int| #![trigger at(j), at(k)] 0 <= j < k < n_new ==> m[j] < m[k])
+}
+pub open spec fn selected(m: Seq<int>, i: int) -> bool { exists|j: int| 0 <= j < m.len() && #[trigger] m[j] == i }
+/// `retain` keeps, in order, exactly the entries on which the closure returned true
+pub assume_specification<T, A: std::alloc::Allocator, F: FnMut(&T) -> bool> [Vec::<T, A>::retain] (v: &mut Vec<T, A>, f: F)
+    requires forall|x: &T| f.requires((x,)),
+    ensures exists|m: Seq<int>| #![trigger is_selection(m, old(v)@.len() as int, final(v)@.len() as int)] is_selection(m, old(v)@.len() as int, final(v)@.len() as int)
+        && (forall|j: int| #![trigger at(j)] 0 <= j < final(v)@.len() ==> final(v)@[j] == old(v)@[m[j]] && f.ensures((&old(v)@[m[j]],), true))
+        && (forall|i: int| #![trigger at(i)] 0 <= i < old(v)@.len() ==> selected(m, i) || f.ensures((&old(v)@[i],), false));
+
+pub open spec fn all_ne(v: Seq<Test>) -> bool { forall|i: int| 0 <= i < v.len() ==> ne(#[trigger] v[i]) }
+/// x lies in one of the first n input ranges
+pub open spec fn in_some(rs: Seq<Test>, n: int, x: u32) -> bool { exists|k: int| 0 <= k < n && (#[trigger] rs[k]).has(x) }
+pub open spec fn nonempty_selection(o: Seq<Test>, r: Seq<Test>, m: Seq<int>) -> bool {
+    is_selection(m, o.len() as int, r.len() as int)
+    && (forall|j: int| #![trigger at(j)] at(j) && 0 <= j < r.len() ==> r[j] == o[m[j]] && (wf(o[m[j]]) ==> ne(o[m[j]])))
+    && (forall|i: int| #![trigger at(i)] at(i) && 0 <= i < o.len() ==> selected(m, i) || (wf(o[i]) ==> !ne(o[i])))
+}
+/// dropping the empty ranges keeps everything the partition promises
+pub proof fn lemma_retain_nonempty(o: Seq<Test>, r: Seq<Test>)
+    requires all_wf(o), disjoint(o),
+        exists|m: Seq<int>| #![trigger is_selection(m, o.len() as int, r.len() as int)] nonempty_selection(o, r, m),
+    ensures all_wf(r), disjoint(r), all_ne(r),
+        forall|x: u32| #[trigger] covered(r, x) <==> covered(o, x),
+        forall|t: Test| pp(o, t) ==> #[trigger] pp(r, t),
+{
+    let m = choose|m: Seq<int>| nonempty_selection(o, r, m);
+    assert forall|j: int| 0 <= j < r.len() implies wf(#[trigger] r[j]) && ne(r[j]) by { assert(at(j)); }
+    assert forall|j: int, k: int| 0 <= j < k < r.len() implies sep(#[trigger] r[j], #[trigger] r[k]) by { assert(at(j) && at(k)); }
+    assert forall|x: u32| #[trigger] covered(r, x) <==> covered(o, x) by {
+        if covered(r, x) { let j = choose|j: int| 0 <= j < r.len() && (#[trigger] r[j]).has(x); assert(at(j)); assert(o[m[j]].has(x)); }
+        if covered(o, x) {
+            let i = choose|i: int| 0 <= i < o.len() && (#[trigger] o[i]).has(x);
+            assert(at(i)); assert(ne(o[i]));
+            let j = choose|j: int| 0 <= j < m.len() && #[trigger] m[j] == i;
+            assert(at(j)); assert(r[j].has(x));
+        }
+    }
+    assert forall|t: Test| pp(o, t) implies #[trigger] pp(r, t) by {
+        assert forall|x: u32| #[trigger] t.has(x) implies exists|j: int| 0 <= j < r.len() && (#[trigger] r[j]).has(x) && sub(r[j], t) by {
+            let i = choose|i: int| 0 <= i < o.len() && (#[trigger] o[i]).has(x) && sub(o[i], t);
+            assert(at(i)); assert(ne(o[i]));
+            let j = choose|j: int| 0 <= j < m.len() && #[trigger] m[j] == i;
+            assert(at(j)); assert(r[j].has(x) && sub(r[j], t));
+        }
+    }
+}
+/// reordering keeps everything the partition promises
+pub proof fn lemma_permuted(o: Seq<Test>, s: Seq<Test>)
+    requires all_wf(o), disjoint(o), all_ne(o), s.len() == o.len(),
+        exists|p: Seq<int>, q: Seq<int>| is_perm(p, q, o.len() as int) && forall|i: int| 0 <= i < o.len() ==> #[trigger] s[i] == o[p[i]],
+    ensures all_wf(s), disjoint(s), all_ne(s),
+        forall|x: u32| #[trigger] covered(s, x) <==> covered(o, x),
+        forall|t: Test| pp(o, t) ==> #[trigger] pp(s, t),
+{
+    let n = o.len() as int;
+    let (p, q) = choose|p: Seq<int>, q: Seq<int>| is_perm(p, q, n) && forall|i: int| 0 <= i < n ==> #[trigger] s[i] == o[p[i]];
+    assert forall|k: int| 0 <= k < n implies #[trigger] o[k] == s[q[k]] by { assert(at(k)); assert(s[q[k]] == o[p[q[k]]]); }
+    assert forall|j: int| 0 <= j < n implies wf(#[trigger] s[j]) && ne(s[j]) by { assert(at(j)); assert(s[j] == o[p[j]]); }
+    assert forall|j: int, k: int| 0 <= j < k < n implies sep(#[trigger] s[j], #[trigger] s[k]) by {
+        assert(at(j) && at(k)); assert(s[j] == o[p[j]] && s[k] == o[p[k]]);
+        assert(p[j] != p[k]);
+        if p[j] < p[k] { assert(sep(o[p[j]], o[p[k]])); } else { assert(sep(o[p[k]], o[p[j]])); }
+    }
+    assert forall|x: u32| #[trigger] covered(s, x) <==> covered(o, x) by {
+        if covered(s, x) { let j = choose|j: int| 0 <= j < n && (#[trigger] s[j]).has(x); assert(at(j)); assert(o[p[j]].has(x)); }
+        if covered(o, x) { let i = choose|i: int| 0 <= i < n && (#[trigger] o[i]).has(x); assert(at(i)); assert(s[q[i]].has(x)); }
+    }
+    assert forall|t: Test| pp(o, t) implies #[trigger] pp(s, t) by {
+        assert forall|x: u32| #[trigger] t.has(x) implies exists|j: int| 0 <= j < s.len() && (#[trigger] s[j]).has(x) && sub(s[j], t) by {
+            let i = choose|i: int| 0 <= i < o.len() && (#[trigger] o[i]).has(x) && sub(o[i], t);
+            assert(at(i)); assert(s[q[i]].has(x) && sub(s[q[i]], t));
+        }
+    }
+}
+
+//@ item ov fn remove_overlap
 //@ item ov fn add_range
 
 } // verus!
